@@ -1,3 +1,4 @@
+import importlib
 import inspect
 import sys
 import typing
@@ -241,8 +242,17 @@ def parametrized_class_check(fn):
 def _getcls(ref):
     module, *parts = ref.split(".")
     curr = __import__(module)
+    path = module
     for part in parts:
-        curr = getattr(curr, part)
+        path = f"{path}.{part}"
+        try:
+            curr = getattr(curr, part)
+        except AttributeError as exc:
+            # A submodule that the package does not import by itself
+            try:
+                curr = importlib.import_module(path)
+            except ImportError:
+                raise exc from None
     return curr
 
 
